@@ -26,7 +26,7 @@ import (
 )
 
 func init() {
-	evid.Register(&evid.Check{ID: "C03", Level: "exploration", Run: run, QuickBudget: 300 * time.Second, ThoroughBudget: 30 * time.Minute})
+	evid.Register(&evid.Check{ID: "C03", Level: "exploration", Run: run, QuickBudget: 480 * time.Second, ThoroughBudget: 30 * time.Minute})
 }
 
 type caseT struct {
@@ -115,7 +115,7 @@ func CheckRuleTable(r *evid.Run, eng *Engine) {
 //
 //	quick:    union v2 for every item; union v1beta1+v1, the 12 category configs and the single-rule
 //	          configs of the expected rules for items without surrounding at the positions top / file
-//	          (field-type table: no single-rule configs)
+//	          (field-type table: v2 categories only, no single-rule configs)
 //	thorough: the three union configs for every item; category configs for every item and single-rule
 //	          configs without surrounding, except the field-type table, which gets the category
 //	          configs without surrounding on the singular slot
@@ -139,7 +139,11 @@ func configsFor(in *Instance, mode int, full bool) []Config {
 	}
 	cfgs := unions
 	if cats {
-		cfgs = append(cfgs, CategoryConfigs()...)
+		cc := CategoryConfigs()
+		if !full && table {
+			cc = cc[8:] // quick: the table runs the v2 categories only (the other versions through their unions)
+		}
+		cfgs = append(cfgs, cc...)
 	}
 	if singles {
 		seen := map[string]bool{}
